@@ -117,7 +117,13 @@ func codedWrapperExhaustive(c *core.Ctx) {
 						if toWire != nil && m.Name() == "Close" {
 							okTo := false
 							if len(inner.Args) == 1 {
-								if tc, ok := astx.Unparen(inner.Args[0]).(*ast.CallExpr); ok && astx.FieldOf(info, tc.Fun) == toWire {
+								ia := astx.Unparen(inner.Args[0])
+								if o := astx.ObjOf(info, ia); o != nil {
+									if def := soleDefinition(info, fd.Body, o); def != nil {
+										ia = astx.Unparen(def) // computed into a local first
+									}
+								}
+								if tc, ok := ia.(*ast.CallExpr); ok && astx.FieldOf(info, tc.Fun) == toWire {
 									okTo = true
 								}
 							}
@@ -146,10 +152,11 @@ func codedWrapperExhaustive(c *core.Ctx) {
 		}
 		got := map[string]string{}
 		ast.Inspect(fd.Body, func(x ast.Node) bool {
-			if kv, ok := x.(*ast.KeyValueExpr); ok {
-				if id, ok := kv.Key.(*ast.Ident); ok {
-					if f, ok := astx.ObjOf(info, kv.Value).(*types.Func); ok {
-						got[id.Name] = f.Name()
+			if lit, ok := x.(*ast.CompositeLit); ok {
+				for fld, val := range builtFields(info, fd.Body, lit) {
+					v := astx.StripConv(info, astx.Unparen(val))
+					if f, ok := astx.ObjOf(info, v).(*types.Func); ok {
+						got[fld.Name()] = f.Name()
 					}
 				}
 			}
@@ -430,8 +437,13 @@ func ctxBeforeIO(c *core.Ctx) {
 			if set != 1 {
 				probs = append(probs, "the context error is not recorded with SetError")
 			}
-			last := ret.Results[len(ret.Results)-1]
-			call, ok := astx.Unparen(last).(*ast.CallExpr)
+			last := astx.Unparen(ret.Results[len(ret.Results)-1])
+			if o := astx.ObjOf(info, last); o != nil && o != ctxErrObj {
+				if rhs := s.LastAssigned(info, o); rhs != nil {
+					last = astx.Unparen(rhs) // the value returned was computed into a variable first
+				}
+			}
+			call, ok := last.(*ast.CallExpr)
 			if !ok || astx.CalleeFunc(info, call) == nil || astx.CalleeFunc(info, call).Name() != "wrapIfContextError" || astx.ObjOf(info, call.Args[0]) != ctxErrObj {
 				probs = append(probs, "the context error is not returned through wrapIfContextError")
 			}
